@@ -3,7 +3,10 @@ package main
 // Generators for the properties decided on the memory model (buffers, views, readers/writers,
 // conversions as whole-buffer operations, pool histories).
 
-import "fmt"
+import (
+	"fmt"
+	"math"
+)
 
 func (w *World) Drop(vid int) {
 	if vid >= 0 && vid < len(w.views) {
@@ -194,6 +197,43 @@ func genC01(w *World, r *Rng, tier string) {
 						w.Read(v, sk, valsFor(r, sk, sk, w.views[v].Len()))
 					}
 				}
+			}
+		}
+	}
+}
+
+// the sign of zero: writers store what they are given also when it compares equal to what is there
+func genC01Zeros(w *World, r *Rng, tier string) {
+	for _, sk := range []Kind{F32, F64} {
+		for _, dk := range []Kind{F32, F64} {
+			for _, ch := range []int{1, 2} {
+				w.Case(fmt.Sprintf("C01 zeros %s>%s ch%d", sk, dk, ch))
+				v := w.Alloc(dk, false, ch, 3, 3) // fresh: +0 everywhere
+				n := 3 * ch
+				neg := make([]uint64, n)
+				pos := make([]uint64, n)
+				for i := range neg {
+					neg[i] = floatCell(math.Copysign(0, -1), sk)
+					pos[i] = floatCell(0, sk)
+				}
+				w.Write(v, sk, neg) // -0 over +0
+				w.Read(v, sk, pos)
+				w.Write(v, sk, pos) // +0 over -0
+				w.Read(v, sk, neg)
+				colsN := make([][]uint64, ch)
+				colsP := make([][]uint64, ch)
+				for c := range colsN {
+					colsN[c] = neg[:3]
+					colsP[c] = pos[:3]
+				}
+				w.WriteStriped(v, sk, colsN)
+				w.ReadStriped(v, sk, colsP)
+				w.WriteStriped(v, sk, colsP)
+				w.ReadStriped(v, sk, colsN)
+				w.Set(v, 0, floatCell(math.Copysign(0, -1), dk))
+				w.Get(v, 0)
+				w.ChanSet(v, ch-1, 1, floatCell(math.Copysign(0, -1), dk))
+				w.ChanGet(v, ch-1, 1)
 			}
 		}
 	}
@@ -670,6 +710,26 @@ func genC02Long(w *World, r *Rng, tier string) {
 	}
 }
 
+// the sign of zero through channel views (a store skipped when old and new compare equal loses it)
+func genC14Zeros(w *World, r *Rng, tier string) {
+	for _, k := range []Kind{F32, F64} {
+		for _, ch := range []int{1, 3} {
+			w.Case(fmt.Sprintf("C14 zeros %s ch%d", k, ch))
+			v := w.Alloc(k, false, ch, 2, 2) // fresh: +0 everywhere
+			nz, pz := floatCell(math.Copysign(0, -1), k), floatCell(0, k)
+			for c := 0; c < ch; c++ {
+				w.ChanSet(v, c, 1, nz) // -0 over +0
+				w.ChanGet(v, c, 1)
+				w.ChanSet(v, c, 1, pz) // +0 over -0
+				w.ChanGet(v, c, 1)
+				w.ChanSet(v, c, 0, nz)
+			}
+			w.Set(v, 0, pz)
+			w.Get(v, 0)
+		}
+	}
+}
+
 func genC14Long(w *World, r *Rng, tier string) {
 	for i := 0; i < nLong(tier); i++ {
 		k := r.Kind()
@@ -1013,6 +1073,24 @@ func genC13(w *World, r *Rng, tier string) {
 			}
 		}
 	}
+	// channel counts around the widths a narrower header field would have
+	for _, C := range []int{255, 256, 257, 32767, 32768, 65535, 65536, 65537, 1 << 20, 1<<31 - 1, 1 << 31, 1<<32 + 2, 1<<40 + 1} {
+		k := r.Kind()
+		w.Case(fmt.Sprintf("C13 wide %s C%d", k, C))
+		w.st.shape("wide/C%d", C)
+		e := w.Alloc(k, false, C, 0, 0)
+		if C <= 257 {
+			f := w.Alloc(k, r.Bool(), C, 1, 1)
+			if f >= 0 {
+				w.Set(f, C-1, small(k, 13))
+				w.Get(f, C-1)
+				w.ChanIndex(f, C-1, 0)
+			}
+		}
+		if e >= 0 {
+			w.ChanShape(e, 0)
+		}
+	}
 }
 
 func genC14(w *World, r *Rng, tier string) {
@@ -1152,6 +1230,34 @@ func genC15(w *World, r *Rng, tier string) {
 			s3 := w.Alloc(dk, false, n, 2, 3)
 			w.Append(d2, s3)
 		}
+		// channel counts that agree modulo 2^16 / 2^32 (empty buffers: the only way to have them)
+		for _, cn := range [][2]int{{2, 1<<32 + 2}, {1<<32 + 2, 2}, {1, 1<<16 + 1}, {3, 1<<32 + 3}, {1 << 32, 1 << 33}} {
+			a, b := cn[0], cn[1]
+			sk, dk := r.Kind(), r.Kind()
+			w.Case(fmt.Sprintf("C15 wrap ch%d/%d", a, b))
+			s0 := w.Alloc(sk, false, a, 0, 0)
+			d0 := w.Alloc(dk, false, b, 0, 0)
+			if s0 >= 0 && d0 >= 0 {
+				w.Conv(s0, d0)
+			}
+			s1 := w.Alloc(dk, false, a, 0, 0)
+			if s1 >= 0 && d0 >= 0 {
+				w.Append(d0, s1)
+			}
+			small2 := a
+			if b < a {
+				small2 = b
+			}
+			big := d0
+			if a > b {
+				big = s1
+			}
+			if small2 <= 8 && big >= 0 {
+				cols := make([][]uint64, small2)
+				w.WriteStriped(big, dk, cols)
+				w.ReadStriped(big, dk, cols)
+			}
+		}
 		// pool: put a buffer with a different total capacity
 		for i := 0; i < 6; i++ {
 			k := r.Kind()
@@ -1232,6 +1338,28 @@ func genC20(w *World, r *Rng, tier string) {
 				e := w.Alloc(k, false, sh[0], 0, 0)
 				if e >= 0 {
 					w.Append(v, e)
+				}
+				// ... and of an empty buffer that has spare capacity of its own; the destination stays as
+				// inert as it was (a later single-sample append is still a no-op on zero capacity)
+				if sh[0] > 0 {
+					e2 := w.Alloc(k, false, sh[0], 0, 4)
+					if e2 >= 0 {
+						wasZeroCap := w.views[v].Cap() == 0
+						w.Append(v, e2)
+						if wasZeroCap {
+							w.AppendSample(v, patt(k, 3))
+						}
+						// an empty window at the end of a parent as destination
+						par := w.Alloc(k, false, sh[0], 2, 2)
+						if par >= 0 {
+							fillAll(w, par, 7)
+							ew := w.Slice(par, 2, 2)
+							if ew >= 0 {
+								w.Append(ew, e2)
+								w.AppendSample(ew, patt(k, 4))
+							}
+						}
+					}
 				}
 				// slicing [0,0)
 				w.Slice(v, 0, 0)
